@@ -17,6 +17,8 @@ type Layout struct {
 	Comments bool
 	Parens   bool
 	Extra    bool // extra spaces around punctuation, multi-line restriction lists
+	Long     bool // one full-line comment longer than 64 KiB somewhere between the declarations
+	longDone bool
 	lines    []string
 	cur      strings.Builder
 	sites    int               // number of layout choice sites visited
@@ -60,6 +62,7 @@ func NewLayout(rng *rand.Rand) *Layout {
 		l.Comments = rng.Intn(2) == 0
 		l.Parens = rng.Intn(2) == 0
 		l.Extra = rng.Intn(3) > 0
+		l.Long = rng.Intn(40) == 0
 	}
 	return l
 }
@@ -181,6 +184,11 @@ func (l *Layout) nl(indent int, allowComments bool) {
 	l.lines = append(l.lines, l.cur.String())
 	l.cur.Reset()
 	if l.rng != nil {
+		if l.Long && !l.longDone && allowComments && len(l.lines) >= 2 && l.rng.Intn(3) == 0 {
+			// a comment line longer than any line buffer (64 KiB): the text behind it is still part of the document
+			l.lines = append(l.lines, "# "+strings.Repeat("long comment ", 5400))
+			l.longDone = true
+		}
 		for l.coin(6) {
 			switch {
 			case l.Comments && allowComments && l.rng.Intn(2) == 0:
